@@ -23,6 +23,7 @@ RULE += ' Round 6: 16-bit addressing runs on the CPU as well (the tracee maps lo
 RULE += ' Round 7: 16-bit code-segment twins: every register-only row is also decoded with attrib opmode/admode u16 from the bytes that mean the same instruction there (66 removed or added); its lifted semantics must agree, on generated states, with the 32-bit decoding that the CPU comparison covers.'
 RULE += ' Round 8: segment registers pushed without prefix, under 66 and under 67 (esp and the written window compared, not the selector); rows that carry their own bytes for a size prefix given twice (67 67, 66 66, 66 67 66) on memory, string, xlat and loop forms; the 16-bit code-segment twins now include the memory-operand rows (66 and 67 both exchanged) and compare written memory.'
 RULE += ' Round 9: bit-string forms are keyed by the class of the run-time bit offset (negative, inside the operand, beyond it).'
+RULE += ' Round 10: for every row, an instruction object equal to the decoded one (pickle round trip; decode with configuration strings built at run time) must lift to the same assignment list.'
 RULE += ' Round 10: the table rows are also EXECUTED in a 16-bit code segment (the tracee installs an LDT code descriptor with D=0 over the flat address space; stack and data segments stay flat 32-bit): the bytes that mean the row there (66 and 67 exchanged; loop/jcxz count register follows 67) are decoded with attrib opmode/admode u16 at the code address, lifted and compared with one CPU step - registers, flags, memory, pushed return addresses, and the instruction pointer including its truncation to 16 bits by transfers with 16-bit operand size; stack, call/ret/jmp/jcc/loop, enter/leave rows included (keys cs16/...).'
 RULE += " Round 9: far returns (retf, retf n, with and without 66) to the tracee's own code selector; eip, esp and cs compared."
 ASSUMPTIONS = ['the host CPU (single-stepped through Linux ptrace) is "an x86 processor"; faulting steps are excluded', 'the table of architecturally undefined results below is transcribed from the SDM',
@@ -759,6 +760,42 @@ def run_cs16(sh, part, tier, seed, only=None):
         sh.case(ckey, ok, cls=('%s/%d/%s/%s/cs16' % (inst['mn'], inst['size'], inst['form'], inst['cls'])) if ok else None)
 
 
+def equal_objects(sh, inst, g, ins):
+    """Instruction objects that are equal to the decoded one but are other Python objects - a pickle round trip (what
+    multiprocessing hands to a worker) and a decode whose configuration strings were built at run time - must lift to the same
+    assignment list (the CPU comparison below judges the decoded object)."""
+    import pickle
+    from miasmx.arch.ia32_arch import x86mnemo
+    from miasmx.core.bin_stream import bin_stream
+    from miasmx.tools import emul_helper
+
+    def lift(i):
+        try:
+            return [exprgen.canon(a) for a in emul_helper.get_instr_expr(i, exprgen.Int(O.CODE_ADDR + i.l, 32), [])]
+        except Exception as e:
+            return 'raises %s' % type(e).__name__
+    ref = lift(ins)
+    variants = []
+    try:
+        variants.append(('pickled', pickle.loads(pickle.dumps(ins))))
+    except Exception:
+        sh.counters['instruction_not_picklable'] += 1
+    try:
+        variants.append(('runtime-built-mode-strings', x86mnemo.dis(bin_stream(Virt(O.CODE_ADDR, g), O.CODE_ADDR), {'opmode': ''.join(['u', '3', '2']), 'admode': ''.join(['u', '3', '2'])})))
+    except Exception:
+        pass
+    for name, v in variants:
+        if v is None:
+            continue
+        got = lift(v)
+        sh.case(('equal-object', name, inst['text']), True, cls=None)
+        sh.counters['equal_objects_lifted'] += 1
+        if got != ref:
+            fam = re.sub(r'^(set|cmov|j)(' + '|'.join(CC) + ')$', r'\1cc', inst['mn'])
+            sh.violation('equal-object/%s/%s' % (name, fam), '%s (%s): the decoded instruction lifts to %s, the %s equal object lifts to %s' % (inst['text'], g.hex(), ref, name, got),
+                         {'text': inst['text'], 'code': g.hex(), 'equal_object': True})
+
+
 def run_part(sh, insts, nstates, seed, tier):
     from miasmx.arch.ia32_arch import x86mnemo
     from miasmx.core.bin_stream import bin_stream
@@ -777,6 +814,7 @@ def run_part(sh, insts, nstates, seed, tier):
         if ins is None or ins.l != len(g):
             sh.counters['miasmx_does_not_decode(C01)'] += 1
             continue
+        equal_objects(sh, inst, g, ins)
         rng = common.rng_for(seed, 'C04', inst['text'])
         for k in range(nstates):
             regs, flags, hot = make_state(inst, rng, k)
@@ -838,6 +876,11 @@ def replay(w):
     from miasmx.arch.ia32_arch import x86mnemo
     from miasmx.core.bin_stream import bin_stream
     sh = common.Shard()
+    if w.get('equal_object'):
+        inst = [i for i in instances() if i['text'] == w['text']][0]
+        g = bytes.fromhex(w['code'])
+        equal_objects(sh, inst, g, x86mnemo.dis(bin_stream(Virt(O.CODE_ADDR, g), O.CODE_ADDR)))
+        return [(v['key'], v['detail']) for v in sh.violations]
     if w.get('mode16'):
         run_mode16(sh, 'quick', 0)
         return [(v['key'], v['detail']) for v in sh.violations if v['witness'].get('text') == w['text']]
